@@ -43,6 +43,7 @@ def check(ctx) -> None:
     r95(ctx)
     r96(ctx)
     r98(ctx)
+    r99(ctx)
 
 
 def r91(ctx) -> None:
@@ -528,3 +529,74 @@ def r98(ctx) -> None:
     for i in r.instances:
         i.rule = 'R9.8'
     r.minimum = 2
+
+
+def mutable_defaults(fnode) -> list:
+    """Parameters whose default is a mutable container created once at
+    definition time AND that are stored in an attribute or mutated."""
+    a = fnode.args
+    pos = a.posonlyargs + a.args
+    pairs = list(zip(pos[len(pos) - len(a.defaults):], a.defaults)) + [
+        (p_, d) for p_, d in zip(a.kwonlyargs, a.kw_defaults) if d is not None]
+    out = []
+    for p_, d in pairs:
+        mut = isinstance(d, (ast.List, ast.Dict, ast.Set)) or (
+            isinstance(d, ast.Call) and call_name(d) in (
+                'set', 'list', 'dict', 'bytearray', 'defaultdict', 'deque'))
+        if not mut:
+            continue
+        kept = False
+        for x in ast.walk(fnode):
+            if isinstance(x, (ast.Assign, ast.AnnAssign)) and \
+                    x.value is not None and isinstance(x.value, ast.Name) \
+                    and x.value.id == p_.arg:
+                kept = True               # self._x = param (aliased)
+            if isinstance(x, ast.AugAssign) and isinstance(
+                    x.target, ast.Name) and x.target.id == p_.arg:
+                kept = True
+            if isinstance(x, ast.Call) and isinstance(x.func, ast.Attribute) \
+                    and isinstance(x.func.value, ast.Name) and \
+                    x.func.value.id == p_.arg and x.func.attr in (
+                        'add', 'update', 'append', 'extend', 'pop', 'clear',
+                        'remove', 'discard', 'setdefault', 'insert'):
+                kept = True
+            if isinstance(x, ast.Call) and any(
+                    isinstance(k, ast.Name) and k.id == p_.arg
+                    for k in list(x.args) + [kw.value for kw in x.keywords]) \
+                    and call_name(x) not in ('frozenset', 'tuple', 'set',
+                                             'list', 'dict', 'sorted', 'len',
+                                             'bool', 'isinstance'):
+                kept = True               # escapes into another object
+        if kept:
+            out.append((p_, d))
+    return out
+
+
+def r99(ctx) -> None:
+    R = ctx.rule('R9.9', 'no identity/role state is shared through a mutable '
+                 'default argument', 1)
+    n = 0
+    for f in ctx.proj.all_funcs('pymap/'):
+        if f.rel.startswith(('pymap/admin/', 'pymap/backend/redis/')):
+            continue
+        n += 1
+        for p_, d in mutable_defaults(f.node):
+            R.fail(f, d, f'{f.qualname}: parameter `{p_.arg}` defaults to a '
+                   f'shared mutable object',
+                   f'`{p_.arg}={txt(d)}` is created once, when the function '
+                   f'is defined, and the object is stored / mutated: every '
+                   f'call that omits `{p_.arg}` shares it.  In '
+                   f'Identity.__init__ this makes roles granted to one '
+                   f'login (admin) accumulate for every later password '
+                   f'login, which may then authorize as any authzid')
+    if n < 500:
+        raise AnchorError(f'only {n} functions scanned')
+    R.ok(None, None, f'{n} functions scanned', 'no retained mutable default')
+    import os
+    from ..report import VERIF
+    tree = ast.parse(open(os.path.join(VERIF, 'fixtures',
+                                       'r99_positive.py')).read())
+    hits = sum(len(mutable_defaults(x)) for x in ast.walk(tree)
+               if isinstance(x, ast.FunctionDef))
+    R.check(hits == 1, None, None, 'positive fixture still matches',
+            f'fixtures/r99_positive.py: {hits} hit(s), expected 1')
